@@ -101,7 +101,19 @@ def run_case(case: Dict[str, Any], ctx) -> None:
                 for p in other.parameters():
                     p.grad = torch.zeros_like(p)
             arg = [{"params": plist}] if form == "one-group" else [{"params": [p]} for p in plist]
-        opt = cls(arg, lr=eta, eps=0.0, weight_decay=0.0)
+        okw = {}
+        if case["seed"] % 4 == 0:
+            # a model that mixes unit-scaled layers with an ordinary torch parameter needs the documented allow flag: the layers
+            # keep their u-muP learning rates
+            plain = torch.nn.Parameter(torch.zeros(3, dtype=torch.float64))
+            plain.grad = torch.zeros_like(plain)
+            if form == "flat":
+                arg = list(arg) + [plain]
+            else:
+                arg = list(arg) + [{"params": [plain]}]
+            okw["allow_non_unit_scaling_params"] = True
+            ctx.count("form:allow_non_unit_scaling_params")
+        opt = cls(arg, lr=eta, eps=0.0, weight_decay=0.0, **okw)
         y0 = layer(x)
         g = torch.randn(y0.shape, generator=gen, dtype=torch.float64)
         g = torch.where(g.abs() < 1e-3, torch.full_like(g, 0.5), g)
